@@ -82,7 +82,7 @@ contract(
     'hl7apy.core:Element.find_child_reference',
     sig={'self': 'Element', 'name': 'str'},
     returns='dict[any]?',
-    interface=True,
+    interface=True, verify=False,
     ensures=[
         ('canonical_name', 'implies(result is not None, dhas(result, "name") and dget(result, "name") == canon(self, upper(name)))'),
         ('none_iff', 'implies(result is None, canon(self, upper(name)) is None)'),
@@ -264,7 +264,7 @@ contract(
     'hl7apy.core:Element._is_valid_child',
     sig={'self': 'Element', 'child': 'Element'},
     returns='bool',
-    interface=True,
+    interface=True, verify=False,
     ensures=[],
     raises={'ChildNotFound': {}, 'ChildNotValid': {}},
     modifies=[],
@@ -421,4 +421,69 @@ contract(
               'field Segment._last_child_index'],
     allocates=['La.R', 'Ll'],
     properties=['C09', 'C10', 'C12'],
+)
+
+# set_parent_to_traversal: recursive promotion of the chain of temporary parents.  Its proof needs the ownership
+# invariant for the whole chain (all ElementLists pairwise disjoint), which is not carried by the per-object
+# contracts: the contract below is ASSUMED at call sites and monitored at run time (bounded tier).
+contract(
+    'hl7apy.core:Element.set_parent_to_traversal',
+    sig={'self': 'Element'},
+    returns='none',
+    interface=True, verify=False,
+    ensures=[
+        ('promoted', 'implies(old(self._traversal_parent) is not None and old(self._parent) is None, '
+                     'self._parent is old(self._traversal_parent))'),
+        ('traversal_cleared', 'self._traversal_parent is None'),
+        ('parent_kept', 'implies(old(self._parent) is not None, self._parent is old(self._parent))'),
+    ],
+    raises={n: {} for n in ('ChildNotValid', 'ChildNotFound', 'MaxChildLimitReached', 'OperationNotAllowed')},
+    modifies=None,
+    properties=['C11', 'C09'],
+    notes='assumed (bounded monitor only): see DESIGN 3/K3',
+)
+
+contract(
+    'hl7apy.core:ElementList.remove_by_name',
+    sig={'self': 'ElementList', 'name': 'str', 'index': 'int'},
+    returns='Element',
+    requires=['sep(self)'],
+    ensures=[
+        ('addressed', 'result is old(child_at(self, name, index))'),
+        ('real_child_list', 'implies(old(result._traversal_parent) is not self.element, ' +
+         removed_first_of('self.list', 'self.list', 'result') + ')'),
+        ('real_child_byname', 'implies(old(result._traversal_parent) is not self.element, ' +
+         removed_first_of('old(idx_list(self, result.name))', 'old(idx_list(self, result.name))', 'result') + ')'),
+        ('sep', 'sep(self)'),
+    ],
+    # C12/C15: deleting an absent child - child_at_index gives None and remove(None) fails on None.traversal_parent
+    raises={'ValueError': {}, 'ChildNotFound': {}, 'ChildNotValid': {},
+            'AttributeError': {'when': 'child_at(self, name, index) is None',
+                               'ensures': [('unchanged', 'list_unchanged(self.list) and dict_unchanged(self.indexes)')],
+                               'modifies': []}},
+    modifies=['self.list[]', 'idx_list(self, child_at(self, name, index).name)[]',
+              'tidx_list(self, child_at(self, name, index).name)[]', 'self.traversal_indexes{}'],
+    allocates=['Dd', 'Dv.V', 'La.V', 'Ll'],
+    properties=['C09', 'C12', 'C14'],
+)
+
+contract(
+    'hl7apy.core:ElementList.get',
+    sig={'self': 'ElementList', 'name': 'str'},
+    returns='ElementProxy?',
+    requires=['sep(self)', 'proxies_ok(self)'],
+    ensures=[
+        ('proxies_ok', 'proxies_ok(self)'),
+        ('sep', 'sep(self)'),
+        ('proxy_of_canonical_name',
+         'implies(result is not None, result.element_list is self and '
+         '(result.element_name == upper(name) if (idx_has(self, name) or tidx_has(self, name)) '
+         'else result.element_name == upper(canon(self.element, upper(name)))))'),
+        # C11: reading never writes the view
+        ('view_untouched', 'list_unchanged(self.list) and dict_unchanged(self.indexes) and dict_unchanged(self.traversal_indexes)'),
+    ],
+    raises={'ChildNotFound': {'modifies': []}, 'ChildNotValid': {'modifies': []}},
+    modifies=['self.proxies{}'],
+    allocates=True,
+    properties=['C11', 'C14'],
 )
